@@ -26,7 +26,7 @@ func init() {
 			"(bounds) the Go compiler's own list of bounds checks it could not prove (go build -gcflags=-d=ssa/check_bce) is mapped onto the index/slice expressions of the source; every such site in scope must be discharged by a dominating guard in canonical form or by a named exception with its reason; " +
 			"(nil-embedded) every dereference of the embedded *Request/*Response of a Message is dominated by a nil test or the message was built in the same function; " +
 			"(make) every make with a non-constant size in scope has a provably non-negative size at every call site; (nil-map) every map written through a field is initialised by the type's constructor or under a nil test; " +
-			"(assert, panic, div) no unchecked type assertion, explicit panic or unguarded big.Int division in scope; (reply-id) every return of Server.Handle yields the message carrying the request's id and a non-nil response, and handleRequest always writes it; (no-block-under-lock) as C10.",
+			"(assert, panic, div) no unchecked type assertion, explicit panic or unguarded big.Int division in scope; (reply-id) every return of Server.Handle yields the message carrying the request's id and a non-nil response, and handleRequest always writes it; (no-block-under-lock) as C10. Round 2: (make) sizes are bounded by lengths/constants or capped on the way, per call site.",
 		NotDecided: []string{"not decided: panics inside third-party libraries on hostile input (encoding/json, gob, go-ethereum crypto are trusted), unbounded resource use, liveness in general"},
 	}
 }
